@@ -4,8 +4,8 @@
 package bubble
 
 import (
-	"github.com/bokysan/socketace/v2/verifharness/syncshim"
 	"fmt"
+	"github.com/bokysan/socketace/v2/verifharness/syncshim"
 	"io"
 	"os"
 	"regexp"
@@ -165,13 +165,14 @@ func Run(t *testing.T, body func()) (res Result) {
 }
 
 // Wait is synctest.Wait: returns when every goroutine of the bubble is durably blocked.
-func Wait() { synctest.Wait() }
+func Wait() { synctest.Wait(); syncshim.Steps.Add(1) }
 
 // Advance moves the fake clock forward by d, running whatever timers fire, and returns at
 // the next quiescence.
 func Advance(d time.Duration) {
 	time.Sleep(d)
 	synctest.Wait()
+	syncshim.Steps.Add(1)
 }
 
 var bubbleRe = regexp.MustCompile(`synctest bubble (\d+)\]`)
